@@ -362,3 +362,26 @@ func H_C01_like() {
 	sameRows(got, want, "filter")
 	verif.Reach("end")
 }
+
+// H_C01_like_sym: LIKE with a *symbolic* pattern over the wildcard and
+// metacharacter alphabet against a symbolic subject.
+func H_C01_like_sym() {
+	neg := verif.Choose("not", 2)
+	pat := verif.Str("pattern", 3, "ab%_.")
+	subj := verif.Str("subject", 2+verif.Tier(), "abA.")
+	row := Map{"a": subj}
+	kw := " LIKE "
+	if neg == 1 {
+		kw = " NOT LIKE "
+	}
+	got, ok := runQuery(Map{"t": []any{row}}, verif.SQL("SELECT * FROM t WHERE a"+kw+"?", pat))
+	if !ok {
+		return
+	}
+	var want []Map
+	if likeMatch(subj, 0, pat, 0) != (neg == 1) {
+		want = append(want, row)
+	}
+	sameRows(got, want, "filter")
+	verif.Reach("end")
+}
